@@ -1,6 +1,7 @@
 package main
 
 import (
+	"sync"
 	"fmt"
 	"time"
 	"go/types"
@@ -255,7 +256,15 @@ func (st *State) fact(t Term) {
 	st.pc = append(st.pc, t)
 }
 
+// inputDecls: declarations of the deterministic input symbols ("in.<access path>") made while the current function is
+// verified. They name lazily materialised inputs; a state that shares an already materialised cell with another
+// state never declares the symbol itself, so every script of the function gets all of them (unused ones are harmless).
+var inputDecls sync.Map
+
 func (st *State) declare(name string, sort *Sort) Term {
+	if strings.HasPrefix(name, "in.") || strings.HasPrefix(name, "maphas") {
+		inputDecls.Store(smtDecl(name, sort), true)
+	}
 	if st.sink != nil {
 		return st.sink.declare(name, sort)
 	}
